@@ -516,6 +516,28 @@ def monitor_c05(sc, log):
                 if (r[2], r[3], r[1]) != (v, e, tc):
                     return ("fresh-not-served", "Get2 action %d at %d: key %d has a fresh result (%d,%d) completed at %d (age %d < E=%d) but got (%d,%d) at %d" % (
                         a, tc, k, v, e, u, tc - u, expire_of(sc, e), r[2], r[3], r[1]))
+    # fresh result passed to Set (the latest completion of the key is a Set younger than E): a Load must
+    # return that very result at once and must not start a loader
+    for a, act in enumerate(sc.acts):
+        if act[1] != "L":
+            continue
+        k, tc = act[2], log.call[a]
+        cs = comp.get(k, [])
+        before = [c for c in cs if c[0] < tc]
+        if not before or any(c[0] == tc for c in cs):
+            continue
+        u, v, e, how = before[-1]
+        if how.startswith("set") and tc - u < expire_of(sc, e):
+            # no load of this key may be in flight at tc (a displaced load finishing later is C04's subject)
+            if any(st[0] == k and st[2] < tc and not any(en[0] == k and en[1] == st[1] and en[2] <= tc for en in log.ends) for st in log.starts):
+                continue
+            fin = log.final.get(a)
+            if fin is not None and (fin[1], fin[2]) != (v, e):
+                return ("fresh-not-served", "Load action %d at %d: key %d holds the fresh result (%d,%d) passed to Set at %d (age %d < E=%d) but the returned Future resolved to (%d,%d)" % (
+                    a, tc, k, v, e, u, tc - u, expire_of(sc, e), fin[1], fin[2]))
+            if any(st[0] == k and st[2] == tc for st in log.starts):
+                return ("needless-load", "Load action %d at %d: key %d holds the fresh result passed to Set at %d (age %d < E=%d) but a loader was started" % (
+                    a, tc, k, u, tc - u, expire_of(sc, e)))
     # the property's case table for keys that are never Set, in logs where no job had to queue and
     # nothing else of the key happens at the call instant: fresh / stale / rotted / loading
     set_keys = set(act[2] for act in sc.acts if act[1] == "S")
